@@ -135,6 +135,7 @@ def resolve_all(
     x: object,
     default: object = None,
     _parents: Optional[Set[int]] = None,
+    _resolved: Optional[Dict[int, Any]] = None,
 ) -> Any:
     """Recursively resolves the given object and all the internals.
 
@@ -142,11 +143,17 @@ def resolve_all(
     This procedure might be slow.
 
     An indirect object that contains itself resolves to the default at the
-    point where the cycle closes.
+    point where the cycle closes. An indirect object that is referred to
+    several times is resolved once, so that the work is proportional to the
+    size of the structure (and not to the number of paths through it).
     """
     parents = set() if _parents is None else _parents
+    resolved: Dict[int, Any] = {} if _resolved is None else _resolved
     entered = []
     while isinstance(x, PDFObjRef):
+        if x.objid in resolved:
+            x = resolved[x.objid]
+            break
         if x.objid in parents:
             logger.warning("Circular reference to object %d", x.objid)
             x = default
@@ -154,11 +161,14 @@ def resolve_all(
         parents.add(x.objid)
         entered.append(x.objid)
         x = x.resolve(default=default)
-    if isinstance(x, list):
-        x = [resolve_all(v, default=default, _parents=parents) for v in x]
-    elif isinstance(x, dict):
-        for k, v in x.items():
-            x[k] = resolve_all(v, default=default, _parents=parents)
+    else:
+        if isinstance(x, list):
+            x = [resolve_all(v, default, parents, resolved) for v in x]
+        elif isinstance(x, dict):
+            for k, v in x.items():
+                x[k] = resolve_all(v, default, parents, resolved)
+    for objid in entered:
+        resolved[objid] = x
     parents.difference_update(entered)
     return x
 
